@@ -49,9 +49,11 @@ Definition show_Q (q : Q) : string :=
   let q' := Qred q in show_Z (Qnum q') +:+ "/" +:+ show_Z (Zpos (Qden q')).
 Definition show_fl (f : fl) : string :=
   match f with FNInf => "-inf" | FPInf => "inf" | FFin q => show_Q q end.
+(** Hex of a key / element / member; the empty string is "-" so that it stays visible in lists. *)
+Definition hexs (s : string) : string := if String.eqb s "" then "-" else hex_of_string s.
 Definition show_scalar (x : scalar) : string :=
   match x with
-  | SStr s => "s" +:+ hex_of_string s
+  | SStr s => "s" +:+ hexs s
   | SInt z => "i" +:+ show_Z z
   | SFloat f => "f" +:+ show_fl f
   end.
@@ -63,14 +65,14 @@ Definition show_value (v : value) : string :=
   match v with
   | VNil => "N"
   | VScal x => show_scalar x
-  | VList l => "l[" +:+ join "," (map hex_of_string l) +:+ "]"
+  | VList l => "l[" +:+ join "," (map hexs l) +:+ "]"
   | VHash h =>
-      "h{" +:+ join "," (map (fun f => hex_of_string f +:+ ":" +:+
+      "h{" +:+ join "," (map (fun f => hexs f +:+ ":" +:+
                               match h !! f with Some x => show_scalar x | None => "N" end)
                             (sorted_keys h)) +:+ "}"
-  | VSet m => "S{" +:+ join "," (map hex_of_string (sorted_elems m)) +:+ "}"
+  | VSet m => "S{" +:+ join "," (map hexs (sorted_elems m)) +:+ "}"
   | VZSet z =>
-      "z{" +:+ join "," (map (fun f => hex_of_string f +:+ ":" +:+
+      "z{" +:+ join "," (map (fun f => hexs f +:+ ":" +:+
                               match z !! f with Some x => show_fl x | None => "N" end)
                             (sorted_keys z)) +:+ "}"
   end.
